@@ -384,4 +384,12 @@ def obligations(tier):
            param_generate("n"), param_generate("n1"), param_generate("bad"), param_generate("short"),
            param_generate("n", "grid"), param_generate("n1", "grid"), param_generate("bad", "grid"),
            param_generate("n", int_table=True), param_generate("n1", int_table=True), multi_loader()]
+    # parameter batches are windows of batch-size genuine rows of the sample tables, also for the last window of a pass
+    # over a table whose length the batch size does not divide (C09 step contract of param_batch, reported under C15)
+    from contracts import c09
+    for which in ("DataGeneratorParameter.param_batch[a]", "DataGeneratorParameter.param_batch[b]", "DataGeneratorObservations.obs_batch"):
+        for cl in ("batch_is_window_of_store", "batch_shape"):
+            o = c09.consumer_ob(which, False, cl)
+            o.name = o.name.replace("C09/", "C15/batch_rows/")
+            obs.append(o)
     return obs
